@@ -735,6 +735,14 @@ func parseParams(s string) ([]Param, error) {
 
 		if r == '(' {
 			part := getBracketedString(s, '(', ')')
+			if len(s) < len(part)+2 || s[len(part)+1] != ')' {
+				// The opening bracket has no matching closing bracket.
+				// TODO: Add position to this error.
+				return nil, &Error{
+					Type: ErrInvalidParamType,
+					Hint: string(r),
+				}
+			}
 			var types ParamType
 			for _, c := range part {
 				typ, ok := parseParamType(c)
@@ -783,6 +791,14 @@ func parseParams(s string) ([]Param, error) {
 				}
 			}
 			part := getBracketedString(s, '<', '>')
+			if len(s) < len(part)+2 || s[len(part)+1] != '>' {
+				// The opening bracket has no matching closing bracket.
+				// TODO: Add position to this error.
+				return nil, &Error{
+					Type: ErrInvalidParamType,
+					Hint: string(r),
+				}
+			}
 			sub, err := parseParams(part)
 			if err != nil {
 				return nil, err
